@@ -199,6 +199,8 @@ fn observe_poling(i: usize, tag: &str, s: &Setup) {
     "kind": "poling", "i": i, "tag": tag, "input": input, "length": fx(length),
     "signal_theta": fx(rad(signal.theta_internal())), "dkz0": fx(z0v),
     "idler0_theta": fx(rad(idler0.theta_internal())),
+    "indices": [fx(*signal.refractive_index(signal.frequency(), cs)), fx(*pump.refractive_index(pump.frequency(), cs)),
+                fx(*idler0.refractive_index(idler0.frequency(), cs))],
     "optimum_poling_period": result_json(&r_main), "try_new_optimum": result_json(&r_try),
     "assign_optimum_periodic_poling": result_json(&r_spdc),
     "compute_sign_positive": match sign_rule { Ok(b) => json!(b), Err(m) => json!(m) },
